@@ -51,6 +51,31 @@ def gen_util_problem(rng):
     return pr
 
 
+def gen_double_pinch(rng):
+    """A zone whose shifted grand composite curve is zero at two different temperatures with a heat-recovery pocket
+    between them (hot pinch row != cold pinch row), optionally with intermediate rows inside the pocket, plus an
+    ordinary zone; defaults only or a ladder."""
+    dt = rng.choice([0.0, 2.5, 5.0, 10.0])
+    T0 = float(rng.randrange(3, 10) * 10)
+    gaps = [float(rng.choice([20, 25, 50])) for _ in range(4)]
+    T1, T2, T3, T4 = T0 + gaps[0], T0 + gaps[0] + gaps[1], T0 + sum(gaps[:3]), T0 + sum(gaps)
+    qt, b, qb = (float(rng.randrange(1, 30) * 50) for _ in range(3))
+    S = lambda n, z, a, c, d: {"name": n, "zone": z, "t_supply": a, "t_target": c, "heat_flow": d, "dt_cont": dt, "htc": 1.0}
+    ss = [S("H1", "A", T3 + dt, T2 + dt, b), S("C2", "A", T1 - dt, T2 - dt, b)]
+    if rng.random() < 0.85:
+        ss.append(S("C1", "A", T3 - dt, T4 - dt, qt))
+    if rng.random() < 0.85:
+        ss.append(S("H2", "A", T1 + dt, T0 + dt, qb))
+    if rng.random() < 0.4:
+        # more rows inside the pocket: the pair split into pieces of different spans with the same total
+        m = (T2 + T3) / 2
+        ss[0] = S("H1", "A", T3 + dt, m + dt, b / 2); ss.append(S("H1b", "A", m + dt, T2 + dt, b / 2))
+    if rng.random() < 0.6:
+        ss += [S("H9", "B", 300.0, 100.0, float(rng.randrange(2, 20) * 50)), S("C9", "B", 50.0, 250.0, float(rng.randrange(2, 20) * 50))]
+    rng.shuffle(ss)
+    return {"streams": ss, "utilities": P.gen_utilities(rng, ss, kind=rng.choice(["none", "outside", "ladder"])), "options": {}}
+
+
 def observe(problem):
     """Run the service; per zone with a DI target return what C03/C04 look at."""
     from OpenPinch.lib.enums import TargetType, ProblemTableLabel as PT
@@ -141,7 +166,8 @@ def assign_line(zd, side):
 
 def run(ctx: Ctx):
     ctx.rule = ("the service on random stream sets crossed with utility sets (none; isothermal and gliding levels inside / outside the "
-                "process range; 1-4 levels per side; a cold utility too warm / hot utility too cold for the extreme stream): for "
+                "process range; 1-4 levels per side; a cold utility too warm / hot utility too cold for the extreme stream; double-pinch "
+                "zones with a pocket between the pinches): for "
                 "every zone the hot (cold) duties must sum to Qh (Qc), be non-negative, be zero for utilities beyond the pinch, and the "
                 "total-process record must list the per-utility zone sums; _assign_utility / _maximise_utility_duty on the load "
                 "profiles of those zones compared with the Lean model. Non-trivial: a zone with Qh > 0 and Qc > 0 and >= 2 utilities "
@@ -149,6 +175,7 @@ def run(ctx: Ctx):
     corpus = load_corpus("C03")
     probs = [c["problem"] for c in corpus if c.get("kind") == "service"]
     probs += [gen_util_problem(ctx.rng) for _ in range(ctx.n(300, 6000))]
+    probs += [gen_double_pinch(ctx.rng) for _ in range(ctx.n(40, 800))]
     from . import c03model
     for pr in probs:
         try:
